@@ -264,6 +264,30 @@ func (ri *refInterp) run(c *rctx, p []Op) {
 			case "fmt":
 				ri.seek(c, c.pos+(maxStop-start))
 			}
+		case "fmtin":
+			// D.Format: decode the sub format over the rest of the window; its root is dropped and
+			// its children become, in the order they were added, children of the current compound
+			start := c.pos
+			n := c.hi - c.pos
+			var sub *RNode
+			ok := false
+			subFailed := ri.guard(func() {
+				if n < 0 || start < c.origin {
+					fail("sub range outside")
+				}
+				sub = &RNode{Name: o.Name, Kind: "struct", Buf: c.buf, Start: start, Len: 0, created: start, FmtRoot: true}
+				sc := &rctx{buf: c.buf, origin: start, pos: start, hi: start + n, node: sub}
+				ri.run(sc, o.Body)
+				ok = true
+			})
+			if subFailed || !ok {
+				fail("sub format failed")
+			}
+			maxStop := ri.maxStop(sub, start)
+			for _, ch := range sub.Children {
+				ri.add(c, ch)
+			}
+			ri.seek(c, c.pos+(maxStop-start))
 		case "rootstruct", "rootarray", "rootraw", "fmtbuf":
 			if o.W < 0 || c.pos < c.origin || c.pos+o.W > c.hi {
 				fail("derive outside")
